@@ -2,6 +2,7 @@ use crate::h::core::Tier;
 use crate::h::driver::PropDef;
 use crate::h::scenario::Scenario;
 
+pub mod c01;
 pub mod c02;
 pub mod c07;
 pub mod c08;
@@ -83,7 +84,27 @@ fn c07_work(seed: u64, tier: Tier, idx: u64) -> Option<Scenario> {
     }
 }
 
+fn c01_work(seed: u64, tier: Tier, idx: u64) -> Option<Scenario> {
+    let random = if tier == Tier::Quick { 15_000 } else { 800_000 };
+    if idx < random {
+        Some(c01::generate(seed, idx))
+    } else {
+        None
+    }
+}
+
 static DEFS: &[PropDef] = &[PropDef {
+    id: "C01",
+    level: "exploration",
+    work: c01_work,
+    judge: c01::judge,
+    rule: "each scenario = one editing session over 1..2 documents (grammar-directed valid SPL, mutated SPL, Unicode text, token soup) with up to 40 didChange steps: structural edits (rename, literal change, insert/delete statement, declaration, parameter, `ref`, comment, white space), typing bursts (one notification per keystroke), arbitrary byte-range replacements, batches of 1..5; after every step the broker's AnalyzedSource (observer hook) is compared with AnalyzedSource::new of the same text (tokens, syntax tree incl. attached diagnostics, symbol table, errors()) and the step's publishDiagnostics with the fresh diagnostics; steps are classified valid/broken before and after by the fresh analysis; non-trivial = at least one fault/back-pressure/yield fired and a frame was emitted; distinct = distinct interleaving signature",
+    assumptions: &[
+        "AnalyzedSource::new is the reference (its own correctness is C03/C04, not applicable here)",
+        "the token layer is judged by C07; a token difference is reported there and only noted here",
+    ],
+    wall_cap: (150, 1500),
+}, PropDef {
     id: "C07",
     level: "exploration",
     work: c07_work,
